@@ -109,7 +109,7 @@ func evalShape(ser []*pnode, pos *int, values [][]byte) merkle.Digest {
 }
 
 func runC14(o *out, r *rng, thorough bool, rp string) {
-	o.Rule = "(A) signing payloads: random and boundary payloads / tipsets / VRF inputs, the bytes of the real MarshalForSigning* compared with the byte-level Coq model, and every single-field perturbation must change the bytes; (B) chain keys: the shapes of Tree / BatchTree computed by the Coq model for 1..134 leaves are evaluated with the real keccak256 and compared with merkle.Tree / merkle.BatchTree on random leaves; ECChain.Key vs KeysForPrefixes vs AllPrefixes vs Prefix(i).Key on chains up to 128 tipsets; (C) codecs: cbor-gen header writer/reader vs the Coq model on boundary and random (type, argument) pairs and on malformed prefixes; for every wire and storage type (GMessage, PartialGMessage, Justification, Payload, ECChain, TipSet, SupplementalData, PowerEntries, FinalityCertificate, PowerTableDiff, certexchange Request/ResponseHeader, chainexchange Message) encode-decode-encode equality with and without zstd, at boundary sizes, and decoding of truncated / bit-flipped / length-inflated inputs must return an error without panic and without allocating more than 64 MiB; non-trivial = every case"
+	o.Rule = "(A) signing payloads: random and boundary payloads / tipsets / VRF inputs, the bytes of the real MarshalForSigning* compared with the byte-level Coq model, and every single-field perturbation must change the bytes; (B) chain keys: the shapes of Tree / BatchTree computed by the Coq model for 1..134 leaves are evaluated with the real keccak256 and compared with merkle.Tree / merkle.BatchTree on random leaves; ECChain.Key vs KeysForPrefixes vs AllPrefixes vs Prefix(i).Key on chains up to 128 tipsets; (C) codecs: cbor-gen header writer/reader vs the Coq model on boundary and random (type, argument) pairs and on malformed prefixes; for every wire and storage type (GMessage, PartialGMessage, Justification, Payload, ECChain, TipSet, SupplementalData, PowerEntries, FinalityCertificate, PowerTableDiff, certexchange Request/ResponseHeader, chainexchange Message) encode-decode-encode equality with and without zstd, at boundary sizes, and decoding of truncated / bit-flipped / length-inflated inputs must return an error without panic and without allocating more than 64 MiB; non-trivial = every case; compressed decoding is also exercised with one message held between decompression and CBOR parsing while others are decoded, and by 8 concurrent decoders"
 	ctx := context.Background()
 	_ = ctx
 	// ---------- (B) merkle shapes from the model ----------
